@@ -18,15 +18,15 @@ import (
 // `for len(Q) > 0` loop), each of its components has an exact, local, necessary
 // condition, read off the SSA form by role:
 //
-//   init      D[k] = len(M1[k]) for every key of one adjacency map M1
-//   seeds     every node of the graph with D[id]==0 is put on Q before the loop
-//   pop       each iteration removes exactly the element it reads from Q
-//   relax     for every k in M2[popped]: D[k] = D[k]-1, M2 the adjacency map
-//             inverse to M1 (the roles of the two maps are read off addEdge)
-//   enqueue   k is put on Q exactly under D[k]==0, tested after the decrement
-//   verdict   after Q is drained: true iff some D entry is still non-zero (or an
-//             equivalent count of node events: dequeues vs. number of nodes,
-//             resolved nodes vs. number of nodes with dependencies)
+//	init      D[k] = len(M1[k]) for every key of one adjacency map M1
+//	seeds     every node of the graph with D[id]==0 is put on Q before the loop
+//	pop       each iteration removes exactly the element it reads from Q
+//	relax     for every k in M2[popped]: D[k] = D[k]-1, M2 the adjacency map
+//	          inverse to M1 (the roles of the two maps are read off addEdge)
+//	enqueue   k is put on Q exactly under D[k]==0, tested after the decrement
+//	verdict   after Q is drained: true iff some D entry is still non-zero (or an
+//	          equivalent count of node events: dequeues vs. number of nodes,
+//	          resolved nodes vs. number of nodes with dependencies)
 //
 // A cycle test of another shape (DFS, colouring, repeated scanning) is not
 // judged: the rule records "not applicable" in the evidence and the clause stays
